@@ -198,9 +198,16 @@ var (
 
 var binOps = []string{"and", "or"}
 
+// condition set levels
+const (
+	lvlAtoms = 0 // every atom on every key + every depth-1 derivation over redQuick
+	lvlBase  = 1 // + every depth-2 derivation over red4 (4-atom shape: unordered pairs of distinct atoms per side)
+	lvlFull  = 2 // depth 1 over redThorough, depth-2 3-atom shapes over redQuick, 4-atom shape over all of red4^4
+)
+
 // buildConditions returns the where-clause texts: every atom, every derivation of the grammar
-// tagFilterExpr := atom | (tagFilterExpr) | tagFilterExpr (and|or) tagFilterExpr to nesting depth 2 over the reduced alphabet.
-func buildConditions(thorough bool) []string {
+// tagFilterExpr := atom | (tagFilterExpr) | tagFilterExpr (and|or) tagFilterExpr to nesting depth 2 over reduced alphabets.
+func buildConditions(level int) []string {
 	seen := map[string]bool{}
 	var out []string
 	add := func(s string) {
@@ -216,7 +223,7 @@ func buildConditions(thorough bool) []string {
 		}
 	}
 	red := redQuick
-	if thorough {
+	if level == lvlFull {
 		red = redThorough
 	}
 	// depth 1: (X), X op Y
@@ -230,10 +237,13 @@ func buildConditions(thorough bool) []string {
 			}
 		}
 	}
+	if level == lvlAtoms {
+		return out
+	}
 	// depth 2 over 3 atoms: (X op Y) op Z, X op (Y op Z), X op Y op Z, ((X)), (X) op (Y), ((X op Y))
-	r3 := red
-	if !thorough {
-		r3 = red4
+	r3 := red4
+	if level == lvlFull {
+		r3 = redQuick
 	}
 	for _, x := range r3 {
 		add("((" + x + "))")
@@ -252,11 +262,11 @@ func buildConditions(thorough bool) []string {
 		}
 	}
 	// depth 2 over 4 atoms: (X op Y) op (Z op W)
-	for _, x := range red4 {
-		for _, y := range red4 {
-			for _, z := range red4 {
-				for _, w := range red4 {
-					if !thorough && !(x != y && z != w) {
+	for xi, x := range red4 {
+		for yi, y := range red4 {
+			for zi, z := range red4 {
+				for wi, w := range red4 {
+					if level != lvlFull && !(xi < yi && zi < wi) {
 						continue
 					}
 					for _, o1 := range binOps {
